@@ -595,15 +595,19 @@ fn run_single_program(
                         unsafe {
                             libs::close(fds.0);
 
+                            // a command that exits without reading its
+                            // here-string must not kill the shell (SIGPIPE)
+                            libc::signal(libc::SIGPIPE, libc::SIG_IGN);
                             let mut f = File::from_raw_fd(fds.1);
-                            match f.write_all(redirect_from.1.clone().as_bytes()) {
+                            let mut text = redirect_from.1.clone();
+                            text.push('\n');
+                            match f.write_all(text.as_bytes()) {
                                 Ok(_) => {}
+                                Err(ref e) if e.kind() == std::io::ErrorKind::BrokenPipe => {}
                                 Err(e) => println_stderr!("cicada: write_all: {}", e),
                             }
-                            match f.write_all(b"\n") {
-                                Ok(_) => {}
-                                Err(e) => println_stderr!("cicada: write_all: {}", e),
-                            }
+                            drop(f);
+                            libc::signal(libc::SIGPIPE, libc::SIG_DFL);
                         }
                     }
                 }
